@@ -21,7 +21,7 @@ import numpy as np
 from braxlint import avn, scenario, symsys
 from braxlint.avn import P_zeros, Poly, Rat, Struct, Vmapped, Partial, asarr, fn, nested_fn, same, symarr, uf
 from braxlint.avnlib import B, MA, M, T, diff_report, new_interp, sym
-from braxlint.universe import AnalysisError
+from braxlint.universe import dotted, AnalysisError
 
 LEVEL = 'other'
 EXPLANATION = (
@@ -211,3 +211,18 @@ def run(U, rep, tier):
   # jointless body survives and geom_bodyid - 1 no longer names the owning link (shared with C13 R13.3)
   from braxlint.props.c16 import _Relabel
   c13.r13_3_paths(U, _Relabel(rep, 'R10.6'))
+  # R10.7: the geometry contact.get works on is that of the model AS IT IS when it is loaded: an MjModel is mutable and
+  # hashes by identity, so a loader function memoised with lru_cache / cache hands back the device copy of an earlier state
+  n = 0
+  for q, f in sorted(U.funcs.items()):
+    if not f.mod.name.startswith('brax.io.'):
+      continue
+    n += 1
+    for d in getattr(f.node, 'decorator_list', []):
+      tgt = d.func if isinstance(d, ast.Call) else d
+      nm = '.'.join(dotted(tgt) or [])
+      if nm.split('.')[-1] in ('lru_cache', 'cache', 'cached_property', 'memoize'):
+        rep.fail('R10.7', 'memo|' + q, '%s is memoised (`@%s`): a model edited in place and loaded again gets the stale copy -- the '
+                 'contact geometry is not that of the model passed in' % (q, nm), where=f.where(d), construct=ast.unparse(d)[:80])
+  rep.check(n >= 10, 'R10.7', 'loader functions are not memoised on model identity', 'only %d loader functions seen' % n,
+            construct='%d functions of brax.io.* scanned for lru_cache / cache decorators' % n)
